@@ -27,6 +27,11 @@ class ExprArrayProductModel(ExprDynamicModel):
     def build(self, btor, ctx_width=-1):
         return self.arr.build_product_expr(btor, ctx_width);
     
+    def reset(self):
+        super().reset()
+        # The array caches the solver node of this expression
+        self.arr.product_expr_btor = None
+        
     def accept(self, v):
         v.visit_expr_array_product(self)
     
